@@ -239,6 +239,15 @@ func (eval Evaluator) MultiplyByDiagMatrix(ctIn *rlwe.Ciphertext, matrix LinearT
 		}
 	}
 
+	// If the only non-zero diagonal is the diagonal 0, the
+	// accumulators have not been written by the loop above.
+	if len(keys) == 0 {
+		c0OutQP.Q.Zero()
+		c0OutQP.P.Zero()
+		c1OutQP.Q.Zero()
+		c1OutQP.P.Zero()
+	}
+
 	if len(keys)%QiOverF == 0 {
 		ringQ.Reduce(c0OutQP.Q, c0OutQP.Q)
 		ringQ.Reduce(c1OutQP.Q, c1OutQP.Q)
